@@ -618,6 +618,13 @@ impl World {
         let time_limit = start.checked_add(limits.max_time);
         let mut index = 0;
 
+        // an exhausted iteration budget fails before doing any work
+        if limits.max_iterations == 0 {
+            return Err(Execution::RunLimit(
+                crate::error::RunLimit::TooManyIterations,
+            ));
+        }
+
         // facts that are already in the world count against the budget
         if self.facts.len() > limits.max_facts as usize {
             return Err(Execution::RunLimit(crate::error::RunLimit::TooManyFacts));
